@@ -130,7 +130,9 @@ func (c *FuncCtx) evalMulti(st *State, e ast.Expr) []*Val {
 	case *ast.CompositeLit:
 		return []*Val{c.evalComposite(st, x, false)}
 	case *ast.FuncLit:
-		return []*Val{{T: c.typeOf(x), S: c.fresh("closure", "Int"), Sort: "Int", Closure: x}}
+		cl := c.fresh("closure", "Int")
+		st.assume(app("<", "0", cl))
+		return []*Val{{T: c.typeOf(x), S: cl, Sort: "Int", Closure: x}}
 	}
 	limitf("%s: unsupported expression %T", c.eng.posStr(e.Pos()), e)
 	return nil
